@@ -80,14 +80,14 @@ Section MoveFrame.
   Lemma move_copy_frame st w nf : dirs_added s st -> safe P Q (move_copy src tgt now) st w nf.
   Proof.
     intros Hd. unfold move_copy.
-    apply safe_Do_query_eval; [reflexivity|exact I|].
-    rewrite lexists_eval_norm. fold tg. destruct (lexists st tg) eqn:Hex.
-    { cbn [safe]. split; [exact I|apply QErr_dirs; auto]. }
     apply (mkdirs_of_safe P Q st); [intros; exact I| |apply dirs_added_refl].
     intros st' r w' nf' Hd'.
     assert (Hd2 : dirs_added s st') by (eapply dirs_added_trans; eauto).
     destruct r as [|e0]; [|cbn [safe]; split; [exact I|apply QErr_dirs; auto]].
-    pose proof (not_lexists_no_file st st' tg Hd' Hex) as Hnf.
+    apply safe_Do_query_eval; [reflexivity|exact I|].
+    rewrite lexists_eval_norm. fold tg. destruct (lexists st' tg) eqn:Hex.
+    { cbn [safe]. split; [exact I|apply QErr_dirs; auto]. }
+    pose proof (not_lexists_no_file st' st' tg (dirs_added_refl st') Hex) as Hnf.
     cbn [safe]. split; [exact I|]. split; [intros; exact I|].
     intros [ft|] _.
     - rewrite do_call_fault by reflexivity. cbn [fst snd ncall fail_nstate]. rewrite (norm_of_clean src) by auto.
@@ -117,12 +117,8 @@ Section MoveFrame.
           -- cbn [inodes set_name]. unfold st2. apply inodes_create_same.
           -- intros i Ei. pose proof (dirs_added_keeps _ _ _ _ Hd2 Ei). congruence.
           -- (* nothing is at the target (the check does not follow links), so the new file is the target itself *)
-             assert (Hq' : names st' tg = None \/ names st' tg = Some NDir).
-             { unfold lexists in Hex. destruct (names st tg) eqn:Et; [discriminate|].
-               destruct Hd' as (Hn2 & _). destruct (Hn2 tg) as [E3|[_ E3]]; [left; congruence|right; exact E3]. }
-             fold tg in Fq. destruct Hq' as [Hq'|Hq'].
-             ++ rewrite (follow_none _ _ Hq') in Fq. now injection Fq as <-.
-             ++ rewrite (follow_dir _ _ Hq') in Fq. discriminate.
+             assert (Hq' : names st' tg = None) by (unfold lexists in Hex; destruct (names st' tg); [discriminate|reflexivity]).
+             fold tg in Fq. rewrite (follow_none _ _ Hq') in Fq. now injection Fq as <-.
   Qed.
 
   Lemma move_body_frame w nf :
@@ -131,12 +127,12 @@ Section MoveFrame.
   Proof.
     destruct rn; [|apply move_copy_frame, dirs_added_refl].
     unfold move_rename.
-    apply safe_Do_query_eval; [reflexivity|exact I|].
-    rewrite lexists_eval_norm. fold tg. destruct (lexists s tg) eqn:Hex; [apply move_copy_frame, dirs_added_refl|].
     apply (mkdirs_of_safe P Q s); [intros; exact I| |apply dirs_added_refl].
     intros st r w' nf' Hd. destruct r as [|e']; [|apply move_copy_frame; auto].
+    apply safe_Do_query_eval; [reflexivity|exact I|].
+    rewrite lexists_eval_norm. fold tg. destruct (lexists st tg) eqn:Hex; [apply move_copy_frame; auto|].
     destruct (A_src s src i0 d0 Ea Ed st Hd) as (E & Ei & En).
-    pose proof (not_lexists_no_file s st tg Hd Hex) as Hnf.
+    pose proof (not_lexists_no_file st st tg (dirs_added_refl st) Hex) as Hnf.
     apply safe_Do_nocopy; try (intros; discriminate); try reflexivity; try exact I.
     - intros ft. cbn [ok_of]. apply move_copy_frame; auto.
     - assert (Ctg : clean tg) by apply norm_clean.
